@@ -600,18 +600,22 @@ Proof.
   apply uself_nonself. eapply client_nonself; eauto.
 Qed.
 
-Lemma call_body_T Δ Γ sh rs s fn args pt : typed Δ Γ sh rs s (FCall fn args pt) ->
-  option_map nf' (call_body F fn (map nn' args)) = option_map nf' (call_body F fn args).
+(* the core: any table G in which the callee fd is found, fd typed (in any table F0), the client
+   arguments not `self` names *)
+Definition call_shape (fd : fundef) (args : list name) : Prop :=
+  (length args = length (fn_params fd) /\ Forall (fun a => uself a = false) args) \/
+  (exists a0 rest, args = a0 :: rest /\ length rest = length (fn_params fd) /\ Forall (fun a => uself a = false) rest).
+
+Lemma call_body_T0 (G F0 : list fundef) fn args fd :
+  get_function G fn (length args) = Some fd -> fun_ok D F0 teq fd -> call_shape fd args ->
+  option_map nf' (call_body G fn (map nn' args)) = option_map nf' (call_body G fn args).
 Proof.
-  intros Hty. inversion Hty as [| | | | | | | | | | | | | ? ? ? ? ? ? ? fd tf0 Eg Etf0 Hteq0 Hargs | | | | | |]; subst.
-  unfold call_body. rewrite map_length, Eg.
-  assert (Hfd : fun_ok D F teq fd).
-  { unfold funs_typed in HF. rewrite List.Forall_forall in HF. apply HF. eapply get_function_in; eauto. }
+  intros Eg Hfd Hargs. unfold call_body. rewrite map_length, Eg.
   destruct Hfd as (tf & Etf & Hbind & Hnd & Hty' & Hbody).
   assert (Hps : Forall (fun p => initialized p = false /\ ident p <> "") (fn_params fd)).
   { rewrite List.Forall_forall in *. intros p Hp. apply binder_facts, Hbind, Hp. }
   fold sub_all.
-  pose proof (args_nonself Δ Γ sh) as Hcl0. assert (Hcl : forall l, args_ok teq Δ Γ sh l (fn_params fd) -> Forall (fun a => uself a = false) l) by (intros l; apply Hcl0).
+  assert (Hcl : forall l : list name, Forall (fun a => uself a = false) l -> Forall (fun a => uself a = false) l) by auto.
   destruct (fn_explicit fd) as [ep|] eqn:Eep.
   - destruct Hbody as (Hepc & Hepn & Hb).
     assert (Hnos : Forall (fun p => nos (ident p) (fn_body fd)) (fn_params fd)).
@@ -619,7 +623,7 @@ Proof.
       destruct (Hps p Hp) as [_ Hne]. intro Hin. apply elem_of_union in Hin. destruct Hin as [Hin|Hin]; apply elem_of_singleton in Hin.
       - congruence.
       - apply Hepn. rewrite <- Hin. apply elem_of_list_In, in_map, Hp. }
-    destruct Hargs as [[Hl Ha]|(a0 & rest & -> & Hl & Hp0 & Ha)].
+    destruct Hargs as [[Hl Ha]|(a0 & rest & -> & Hl & Ha)].
     + rewrite Hl, Nat.eqb_refl. cbn [option_map]. f_equal. apply sub_all_T; auto.
       rewrite List.Forall_forall in *. auto.
     + cbn [length]. rewrite Hl. destruct (S (length (fn_params fd)) =? length (fn_params fd))%nat eqn:En; [apply Nat.eqb_eq in En; lia|].
@@ -638,12 +642,29 @@ Proof.
   - assert (Hnos : Forall (fun p => nos (ident p) (fn_body fd)) (fn_params fd)).
     { rewrite List.Forall_forall in *. intros p Hp. eapply typed_nos; [exact Hbody|].
       destruct (Hps p Hp) as [_ Hne]. intro Hin. apply elem_of_singleton in Hin. congruence. }
-    destruct Hargs as [[Hl Ha]|(a0 & rest & -> & Hl & Hp0 & Ha)].
+    destruct Hargs as [[Hl Ha]|(a0 & rest & -> & Hl & Ha)].
     + rewrite Hl, Nat.eqb_refl. cbn [option_map]. f_equal. apply sub_all_T; auto.
       rewrite List.Forall_forall in *. auto.
     + cbn [length]. rewrite Hl. destruct (S (length (fn_params fd)) =? length (fn_params fd))%nat eqn:En; [apply Nat.eqb_eq in En; lia|].
       rewrite Nat.eqb_refl. cbn [map tl option_map]. f_equal. apply sub_all_T; auto.
       rewrite List.Forall_forall in *. auto.
+Qed.
+
+Lemma typed_call_shape Δ Γ sh rs s fn args pt : typed Δ Γ sh rs s (FCall fn args pt) ->
+  exists fd, get_function F fn (length args) = Some fd /\ call_shape fd args.
+Proof.
+  intros Hty. inversion Hty as [| | | | | | | | | | | | | ? ? ? ? ? ? ? fd tf0 Eg Etf0 Hteq0 Hargs | | | | | |]; subst.
+  exists fd. split; [exact Eg|]. destruct Hargs as [[Hl Ha]|(a0 & rest & -> & Hl & Hp0 & Ha)].
+  - left. split; [exact Hl|]. eapply args_nonself; eauto.
+  - right. exists a0, rest. repeat split; auto. eapply args_nonself; eauto.
+Qed.
+Lemma funs_typed_in fd : In fd F -> fun_ok D F teq fd.
+Proof. unfold funs_typed in HF. rewrite List.Forall_forall in HF. apply HF. Qed.
+Lemma call_body_T Δ Γ sh rs s fn args pt : typed Δ Γ sh rs s (FCall fn args pt) ->
+  option_map nf' (call_body F fn (map nn' args)) = option_map nf' (call_body F fn args).
+Proof.
+  intros Hty. destruct (typed_call_shape _ _ _ _ _ _ _ _ Hty) as (fd & Eg & Hs).
+  eapply call_body_T0; eauto. apply funs_typed_in. eapply get_function_in; eauto.
 Qed.
 
 (* ---------- internal transitions: cut, call, drop, split, print ---------- *)
